@@ -375,6 +375,9 @@ func runC13(r *harness.Run) {
 	c13Payloads(r)
 	c13ProtoFamilies(r)
 	r.Extra["seconds_payloads_and_shared_prototypes"] = int(time.Since(t0).Seconds())
+	t0 = time.Now()
+	c13PoolHistories(r)
+	r.Extra["seconds_pool_histories"] = int(time.Since(t0).Seconds())
 	r.Extra["states"] = states
 	r.Extra["transitions"] = transitions
 	r.Extra["traces_validated_against_impl"] = execs
